@@ -6,6 +6,8 @@ from ..tlaparse import to_json, to_tla
 from ..vmfam import *   # noqa
 from . import C01
 
+KEY = lambda tag, n, first, fill: ('o', (tag, first) + (fill,) * (n - 1))
+
 MC = """---- MODULE CollMC ----
 EXTENDS Coll
 KeyTypesV == %s
@@ -34,6 +36,8 @@ def key_pools():
         OR(INT, STR): [right(s('b')), left(i(2)), right(s('a')), left(i(1))],
         OPT(INT): [some(i(1)), none, some(i(-1))],
         ADDR: [addr(4, 1), addr(0, 200), addr(6, 3)],
+        # public keys order by curve first (ed25519 < secp256k1 < P-256 < BLS), whatever their bytes are (seeded C14_13: BLS ranked with P-256)
+        ('key',): [KEY(3, 48, 5, 5), KEY(2, 33, 3, 200), KEY(0, 32, 255, 1), KEY(1, 33, 2, 250)],
     }
 
 
@@ -67,7 +71,7 @@ def literal_accepted(t, coll_t, lit, kind, vals=None):
 
 
 def run(ctx):
-    ctx.rule = ('key types int, string, pair int string, or int string, option int, address with 3 keys each, 2 values. Leg A: Coll.tla runs the reference sorted-sequence '
+    ctx.rule = ('key types int, string, pair int string, or int string, option int, address, key (one public key per curve) with 3-4 keys each, 2 values. Leg A: Coll.tla runs the reference sorted-sequence '
                 'operations against a plain TLA+ dictionary under every history up to the bound (Sorted, Agrees, ObsOK); literals of <=3 keys accepted iff strictly sorted. '
                 'Leg B: the same histories as VM programs (UPDATE / MEM / GET / GET_AND_UPDATE / SIZE / ITER / MAP on set t, map t string) are replayed in pytezos and the whole '
                 'collection and every observation compared after every step; every literal is pushed in pytezos and must be accepted iff the model accepts it')
@@ -98,7 +102,7 @@ def run(ctx):
     depth = 3 if ctx.quick else 4
     for idx, (t, ks) in enumerate(pools.items()):
         ops = []
-        if ctx.quick and idx in (1, 4):
+        if ctx.quick and idx in (1, 4):      # (string and option int are thorough-only)
             continue
         for k in ks:
             ops += [('SEQ', (PUSH(BOOL, T_), PUSH(t, k), ('UPDATEK',))), ('SEQ', (PUSH(BOOL, F_), PUSH(t, k), ('UPDATEK',))),
